@@ -23,7 +23,9 @@ func embeddedScenario() *scenario {
 	channel := eu(5)
 	flowMain, flowChild, flowCurrent := eu(10), eu(11), eu(12)
 
-	cat := func(id int, name string, exit int) obj { return obj{"uuid": eu(id), "name": name, "exit_uuid": eu(exit)} }
+	cat := func(id int, name string, exit int) obj {
+		return obj{"uuid": eu(id), "name": name, "exit_uuid": eu(exit)}
+	}
 	cas := func(id int, typ string, args []string, cat int) obj {
 		return obj{"uuid": eu(id), "type": typ, "arguments": args, "category_uuid": eu(cat)}
 	}
@@ -57,7 +59,7 @@ func embeddedScenario() *scenario {
 				"actions": []obj{
 					{"uuid": eu(101), "type": "send_msg", "text": "Hi @contact.name, age @fields.age, groups @(join(foreach(contact.groups, extract, \"name\"), \"|\")). Yes or no?",
 						"quick_replies": []string{"Yes", "No"},
-						"templating": obj{"template": obj{"uuid": eu(6), "name": "affirmation"}, "variables": []string{"@contact.name", "boy"}}},
+						"templating":    obj{"template": obj{"uuid": eu(6), "name": "affirmation"}, "variables": []string{"@contact.name", "boy"}}},
 					{"uuid": eu(102), "type": "set_contact_field", "field": obj{"key": "age", "name": "Age"}, "value": "@(default(fields.age, 0) + 10)"},
 					{"uuid": eu(103), "type": "add_contact_groups", "groups": []obj{{"uuid": groupTesters, "name": "Testers"}}},
 					{"uuid": eu(104), "type": "call_webhook", "method": "GET", "url": "http://example.com/lookup?name=@(url_encode(contact.name))", "result_name": "Lookup"},
